@@ -122,9 +122,9 @@ PAIRS_T = PAIRS_Q + [((2, 2, 2, 2), (4, 4)), ((4, 4), (2, 2, 2, 2)), ((8, 3), (2
 
 
 def compositions(n, kmax):
-    """all tuples of 1..kmax positive ints adding up to n (n == 0 -> ((0,),))"""
+    """all tuples of 1..kmax positive ints adding up to n (n == 0 -> (0,) and (0, 0))"""
     if n == 0:
-        return [(0,)]
+        return [(0,), (0, 0)]
     out = []
     for k in range(1, min(kmax, n) + 1):
         for cuts in itertools.combinations(range(1, n), k - 1):
@@ -143,6 +143,15 @@ def mk_reshape(pairs, kmax, tag):
         return ins, outs, tuple(chunks)
 
     def run(e, ins, outs, chunks):
+        if 0 in ins:
+            # reshape() creates the result of an empty array directly and never calls reshape_rechunk for it (its merge/split decisions
+            # are products of dimension sizes): decided through the public function only
+            x = np.zeros(ins)
+            d = da.from_array(x, chunks=chunks)
+            r = d.reshape(outs)
+            g = r.compute(scheduler="sync")
+            e.check(r.shape == tuple(outs) == g.shape and tuple(sum(c) for c in r.chunks) == tuple(outs), f"reshape of the empty array {ins} (chunks {chunks}) to {outs} is wrong")
+            return ("empty", r.chunks)
         try:
             inc, outc, _, _ = RS.reshape_rechunk(ins, outs, chunks)
         except NotImplementedError:
